@@ -9,6 +9,7 @@ import pool_common
 import vlib
 
 SPEC = 'spec/parfor'
+SKIP_E1 = bool(os.environ.get('VERIF_LOOPS_SKIP_E1'))   # development switch for mutation runs
 ASSUME = [
     'the pool is abstract at this level (a scheduled task is started by any pool thread, or by the caller inside '
     'scheduleBulk / TaskSet::wait); its own behaviour is C01-C09',
@@ -89,7 +90,7 @@ FE_REGRESSION = [
 ]
 
 
-def run_controlled(ctx, exe, scens, runs, seed, what, module, cfg, label, pct=3, maxsteps=30000):
+def run_controlled(ctx, exe, scens, runs, seed, what, module, cfg, label, pct=3, maxsteps=30000, validate=True):
     """runs x len(scens) random controlled executions, validated by TLC.  The driver stops after an
     execution that was cut (step bound / nothing runnable): it is restarted for the rest.  A cut before
     the loop call completed is re-run alone and reported only if it repeats."""
@@ -132,15 +133,24 @@ def run_controlled(ctx, exe, scens, runs, seed, what, module, cfg, label, pct=3,
             path = ctx.save_replay('%s-stalled.txt' % ctx.prop, 'scenario %s\nthe loop call did not complete within the step bound (twice)\n\n%s'
                                    % (scens[x // runs], ctx._trace_context(part, sum(1 for _ in open(part)))))
             ctx.violation('stalled:' + scens[x // runs], what + ': the loop call never completes [' + label + ']', path)
-    res = ctx.validate(SPEC, module, cfg, tr, what + ' [' + label + ']', executions=completed, label=label)
+    res = ctx.validate(SPEC, module, cfg, tr, what + ' [' + label + ']', executions=completed, label=label) if validate else None
     return tr, completed, res
 
 
-def run_free(ctx, exe, scens, runs, seed, what, module, cfg, label):
+def validate_all(ctx, parts, what, module, cfg, label):
+    """one TLC run over the concatenation of several recorded traces [(path, executions), ...]"""
+    tr = os.path.join(ctx.work, label.replace(' ', '_') + '_all.ndjson')
+    with open(tr, 'w') as f:
+        for p, _ in parts:
+            f.write(open(p).read())
+    return ctx.validate(SPEC, module, cfg, tr, what + ' [' + label + ']', executions=sum(n for _, n in parts), label=label)
+
+
+def run_free(ctx, exe, scens, runs, seed, what, module, cfg, label, validate=True):
     tr = os.path.join(ctx.work, label.replace(' ', '_') + '.ndjson')
     tot, out = ctx.driver(exe, ['--out', tr, '--scen', '|'.join(scens), '--runs', runs, '--seed', seed, '--free'], what,
                           label=label, timeout=300)
-    res = ctx.validate(SPEC, module, cfg, tr, what + ' [' + label + ']', executions=tot.get('completed', 0), label=label)
+    res = ctx.validate(SPEC, module, cfg, tr, what + ' [' + label + ']', executions=tot.get('completed', 0), label=label) if validate else None
     return tr, tot.get('completed', 0), res
 
 
